@@ -132,8 +132,10 @@ func (r *Report) Note(format string, a ...any) {
 }
 
 // Known findings file: lines
-//   known: property=Cnn key=<rule:construct> <what fails>
-//   fixed: property=Cnn <commit> <what failed>
+//
+//	known: property=Cnn key=<rule:construct> <what fails>
+//	fixed: property=Cnn <commit> <what failed>
+//
 // Only "known" lines suppress anything.
 type knownFinding struct {
 	Property, Key, What string
@@ -271,14 +273,14 @@ func (r *Report) Finish(tier string, seed int, start time.Time, evPath, knownPat
 	sort.Strings(analysed)
 
 	cov := map[string]any{
-		"explanation": explanation,
-		"obligations": len(r.Obs),
-		"discharged":  discharged,
+		"explanation":    explanation,
+		"obligations":    len(r.Obs),
+		"discharged":     discharged,
 		"known_findings": len(knownHit),
-		"rules":       rules,
-		"analysed":    analysed,
-		"samples":     samples,
-		"checker_cmd": strings.Join(os.Args, " "),
+		"rules":          rules,
+		"analysed":       analysed,
+		"samples":        samples,
+		"checker_cmd":    strings.Join(os.Args, " "),
 		"trusted_base": []string{
 			"go/types and go/ssa of golang.org/x/tools v0.29.0 represent the program faithfully",
 			"documented semantics of the Go standard library and the module's dependencies",
